@@ -138,6 +138,10 @@ def lock_kernel(chk, it):
     inputs.update(dict(('tx_' + k, v) for k, v in tt.items()))
     ins = [(c.fields[0].fields[0].fields[0]) for c in tx.fields[1].fields]
     touches = z3.Or([z3.Or(x == sh0, x == nh) for x in ins])
+    # the staked coin itself is output 0 of the stake transaction (the property locks that coin; whether the change outputs
+    # of a stake transaction are locked as well is not part of it)
+    idxs = [c.fields[1] for c in tx.fields[1].fields]
+    touches_staked = z3.Or([z3.And(z3.Or(x == sh0, x == nh), i == 0) for x, i in zip(ins, idxs)])
     old = old_rules(netd, h, 900000)
     n = 0
     covers = {}
@@ -151,7 +155,7 @@ def lock_kernel(chk, it):
         n += 1
         ok = M.is_variant(o.v, 'Ok')
         pcs = list(s.pc)
-        chk.obligation('FUNC/spending-a-stake-output-is-rejected/' + name, pcs + [touches, z3.Not(old)], z3.Not(ok), inputs,
+        chk.obligation('FUNC/spending-the-staked-coin-is-rejected/' + name, pcs + [touches_staked, z3.Not(old)], z3.Not(ok), inputs,
                        replay=rp, bound='2 inputs, 1 registered + 1 just-registered stake')
         if 'Err' in o.v.payloads:
             e = o.v.payloads['Err'][0]
